@@ -130,7 +130,13 @@ def gen_case(rng, cid):
     c = dict(id=cid, sv=sv, flags=flags, ctx=ctx, annex=None, weight=None, notes=[])
     sk = rsign.rnd_sk(rng)
     if sv in (BASE, WITNESS_V0):
-        ht = rng.choice([1, 1, 2, 3, 0x81, 0x82, 0x83, rng.randrange(256), rng.randrange(256), 0, 4, 0x80, 0xff])
+        # all 256 hash-type bytes matter: undefined ones (extra bits 0x20/0x40, low bits 0 or > 3) still select ALL/NONE/SINGLE
+        # by their low five bits when STRICTENC is off
+        ht = rng.choice([1, 1, 2, 3, 0x81, 0x82, 0x83, rng.randrange(256), rng.randrange(256), 0, 4, 0x80, 0xff,
+                         rng.choice([0x22, 0x23, 0x42, 0x43, 0x62, 0x63, 0xa2, 0xa3, 0xc2, 0xc3, 0xe2, 0xe3, 0x21, 0x41, 0x61, 0xe1, 0x1f, 0x20, 0x40, 0x60, 0x9f])])
+        if (ht & ~0x80) not in (1, 2, 3) and rng.random() < 0.7:
+            flags &= ~F["STRICTENC"]
+            c['flags'] = flags
         pub, pk_kind = pub_variant(rng, sk)
         pat = rng.choice(['checksig', 'checksig', 'verify', 'codesep-before', 'codesep-after-key', 'codesep-unexecuted', 'two-codeseps', 'sig-in-script', 'multisig', 'multisig', 'multisig-verify'])
         c['pattern'] = pat
